@@ -147,7 +147,9 @@ def check_slate(run, ir, spec, names, s0, s1, nv, fb, ow):
                 if st == "ask":
                     asks.append(eq)
     if not n_sym:
-        run.unknown(key, "no symbolic cell inside the slate")
+        # the ORACLE expects no tagged cell inside this slate (outside the data, missing, or overwritten): every cell was compared concretely
+        # above (NaN, fallback or overwrite value), nothing is left for the solver
+        run.ok(key, nontrivial=False)
         return
     run.reach_ok += 1
     if asks:
